@@ -118,6 +118,10 @@ impl TryFrom<DateTime<Nanosecond>> for CrDateTime<Utc> {
     type Error = TError;
     #[inline]
     fn try_from(dt: DateTime<Nanosecond>) -> TResult<Self> {
+        // i64::MIN nanoseconds is a representable instant for chrono, but it is the NaT sentinel here
+        if dt.is_nat() {
+            return Err(terr!("Failed to convert DateTime<Nanosecond> to CrDateTime"));
+        }
         Ok(CrDateTime::from_timestamp_nanos(dt.0))
     }
 }
